@@ -428,3 +428,11 @@ pub fn tree_spans(b: &[u8]) -> Option<Vec<Span>> {
     }
     Some(spans)
 }
+
+
+/// Length of the encoded Commit struct at the start of `b` (what a PrivateMessage's decrypted content starts with).
+pub fn commit_len(b: &[u8]) -> Option<usize> {
+    let mut c = Rec::new(b);
+    commit(&mut c)?;
+    Some(c.r.pos)
+}
